@@ -52,7 +52,7 @@ Open Scope Z_scope.
 Theorem literal_value_decimal :
   (forall z, - 10 ^ 4300 < z < 10 ^ 4300 -> py_int0 (str_dec z) = Some z) /\
   (forall z, 0 <= z < 10 ^ 4300 -> py_int0 (45 :: str_dec z) = Some (- z)).
-Proof. exact (conj py_int0_str_dec py_int0_neg_str_dec). Qed.
+Proof. exact literal_value_decimal_lem. Qed.
 Print Assumptions literal_value_decimal.
 
 (* "0x.." with upper- or lower-case digits (any number of them), either sign *)
@@ -142,9 +142,7 @@ Theorem rset_meaning : forall s r v,
   (forall k, k <> r -> rget (rset s r v) k = rget s k) /\
   ms (rset s r v) = ms s /\ out (rset s r v) = out s /\ pc (rset s r v) = pc s /\ im (rset s r v) = im s /\
   exitc (rset s r v) = exitc s /\ cycles (rset s r v) = cycles s.
-Proof.
-  exact (fun s r v => conj (rget_rset_same s r v) (conj (fun k => rget_rset_other s r v k) (rset_frame s r v))).
-Qed.
+Proof. exact rset_meaning_lem. Qed.
 Print Assumptions rset_meaning.
 
 (** ** 4. la, load by name, store by name *)
@@ -309,6 +307,9 @@ Example layout_ex :
           {| vl_name := 5; vl_start := 16652; vl_esize := 1; vl_bytes := [72; 105; 0]; vl_extent := 3 |} ], 16655).
 Proof. vm_compute. reflexivity. Qed.
 
+Example first_data_address : align4 16384 = 16384 /\ align4 16385 = 16388 /\ align4 16388 = 16388.
+Proof. vm_compute. repeat split; reflexivity. Qed.
+
 (** ** 8. The help-page program *)
 
 Definition by_name (mn : Z) (reg : str) (name : Z) (idx : option str) : rline :=
@@ -368,3 +369,87 @@ Example later_declaration_overwrites_when_wrapping :
   | PErr _ => False
   end.
 Proof. vm_compute. repeat split; reflexivity. Qed.
+
+(** ** 7. Segment order *)
+
+(* ".data D1 .text T1" and ".text T2 .data D2", where D2 has the declarations of D1 (any line
+   numbers) and T2 has the lines of T1 under a renumbering f that keeps different lines different
+   (e.g. a shift): same memory, variables, labels and instructions, or the same error up to the line
+   number it carries.  The .text line number must not be the number of a data line and the .data
+   line number not that of a text line (the segmenter cuts at the FIRST line with that number). *)
+Theorem layout_segment_order : forall a b c d D1 T1 D2 f m,
+  Forall plain_rline D1 -> Forall plain_rline T1 ->
+  map snd D1 = map snd D2 ->
+  (forall x y, In x (map fst T1) -> In y (map fst T1) -> f x = f y -> x = y) ->
+  ~ In b (map fst D1) -> ~ In d (map fst (renumber f T1)) ->
+  let L1 := (a, RDirective 1) :: D1 ++ (b, RDirective 0) :: T1 in
+  let L2 := (c, RDirective 0) :: renumber f T1 ++ (d, RDirective 1) :: D2 in
+  same_outcome (assemble L1 m) (assemble L2 m).
+Proof. exact layout_segment_order_lem. Qed.
+Print Assumptions layout_segment_order.
+
+(* what the segmenter returns on the two orders *)
+Theorem segment_two_orders :
+  (forall a b D T, Forall plain_rline D -> Forall plain_rline T -> ~ In b (map fst D) ->
+     segment rdir_of ((a, RDirective 1) :: D ++ (b, RDirective 0) :: T) = POk (D, T)) /\
+  (forall c d D T, Forall plain_rline D -> Forall plain_rline T -> ~ In d (map fst T) ->
+     segment rdir_of ((c, RDirective 0) :: T ++ (d, RDirective 1) :: D) = POk (D, T)).
+Proof. exact segment_two_orders_lem. Qed.
+Print Assumptions segment_two_orders.
+
+(* the help-page program with .text first (all line numbers differ) *)
+Definition help_toks_swapped : list (Z * rline) :=
+  [ (1, RDirective 0);
+    (2, by_name 55 (codes "1") 2 None);
+    (3, by_name 28 (codes "2") 3 None);
+    (4, by_name 28 (codes "3") 3 (Some (codes "0")));
+    (5, by_name 28 (codes "4") 3 (Some (codes "2")));
+    (6, by_name 29 (codes "5") 4 (Some (codes "1")));
+    (7, by_name 27 (codes "6") 5 (Some (codes "12")));
+    (8, RDirective 1);
+    (9, RZeroDecl 1 (codes "64"));
+    (12, RVarDecl 2 0 [codes "-128"]);
+    (14, RVarDecl 3 1 [codes "0x1234"; codes "0b1010"; codes "999"]);
+    (15, RVarDecl 4 2 [codes "0x12345678"; codes "0b111"]);
+    (16, RStrDecl 5 (codes """Hello, World!""")) ].
+Example segment_order_ex : assemble help_toks_swapped (MFlat []) = assemble help_toks (MFlat []).
+Proof. vm_compute. reflexivity. Qed.
+(* it is an instance of the theorem: T2 = T1 renumbered by subtracting 9 *)
+Example segment_order_instance :
+  exists D1 T1 D2, help_toks = (1, RDirective 1) :: D1 ++ (10, RDirective 0) :: T1 /\
+    help_toks_swapped = (1, RDirective 0) :: renumber (fun x => x - 9) T1 ++ (8, RDirective 1) :: D2 /\
+    map snd D1 = map snd D2 /\ Forall plain_rline D1 /\ Forall plain_rline T1.
+Proof.
+  eexists (firstn 5 (tl help_toks)), (skipn 7 help_toks), (skipn 8 help_toks_swapped).
+  repeat split; try reflexivity; repeat constructor.
+Qed.
+(* errors agree up to the line number *)
+Example segment_order_error_ex :
+  assemble [(1, RDirective 1); (2, RVarDecl 1 0 [codes "1"]); (4, RDirective 0); (5, by_name 55 (codes "1") 9 None)]
+           (MFlat []) = PErr (PVariable 5) /\
+  assemble [(1, RDirective 0); (2, by_name 55 (codes "1") 9 None); (3, RDirective 1); (4, RVarDecl 1 0 [codes "1"])]
+           (MFlat []) = PErr (PVariable 2) /\
+  erase_line (PVariable 5) = erase_line (PVariable 2).
+Proof. vm_compute. repeat split; reflexivity. Qed.
+(* the hypothesis on the directive's line number cannot be dropped: a .text line that reuses the
+   number of a data line makes the segmenter cut there, and the load fails *)
+Example segment_line_numbers_matter :
+  (if assemble [(1, RDirective 1); (2, RVarDecl 1 0 [codes "1"]); (3, RVarDecl 2 0 [codes "2"]);
+                (4, RDirective 0); (5, by_name 55 (codes "1") 2 None)] (MFlat []) then true else false) = true /\
+  assemble [(1, RDirective 1); (2, RVarDecl 1 0 [codes "1"]); (3, RVarDecl 2 0 [codes "2"]);
+            (2, RDirective 0); (5, by_name 55 (codes "1") 2 None)] (MFlat []) = PErr (PVariable 5).
+Proof. vm_compute. split; reflexivity. Qed.
+
+(* the guards 0 < r in [load_by_name_correct] / 0 < t in [store_by_name_correct] cannot be dropped:
+   with x0 the address never reaches the register and the access goes to address 0, which faults *)
+Example by_name_through_x0_faults :
+  match assemble [(1, RDirective 1); (2, RVarDecl 1 2 [codes "7"]); (3, RDirective 0);
+                  (4, by_name 29 (codes "0") 1 None)] (MFlat []) with
+  | POk (m', img) =>
+      match snd (single_run 100 (init_st (i_instrs img) m' None)) with
+      | Faulted f => f_err f = EAddr 0 16384 4294967295 false
+      | _ => False
+      end
+  | PErr _ => False
+  end.
+Proof. vm_compute. reflexivity. Qed.
